@@ -53,80 +53,92 @@ _N = ('assume_specification for core integer ops without vstd specs; external_bo
       'D1-D8; Verus/z3, Kani/CBMC, rustc')
 
 PROPS = {
-    'C01': {'level': 'proof', 'technique': _T, 'note': _N,
-            'claim': 'Unbounded Verus proofs (all slice lengths, all word values) that the word kernels behind + - * '
-                     '(integer/src/add.rs, mul/mod.rs, mul/simple.rs, math.rs, primitive.rs) compute exactly '
-                     'val(lhs) +- val(rhs) resp. the exact product with the returned carry/borrow/sign; complete Kani '
-                     'proofs of scalar helpers. Karatsuba/Toom-3/pow glue and the Repr dispatch are listed per run '
-                     'under "undecided"/"bounded_units".'},
-    'C02': {'level': 'proof', 'technique': _T, 'note': _N + '; num_modular dividers assumed (dependency)',
-            'claim': 'Verus proofs of the sign conventions of every IBig division form over the unsigned division '
-                     'contract, and of the word-divisor kernels over assumed num_modular reciprocal-division contracts; '
-                     'multi-word schoolbook/divide-and-conquer division is bounded or undecided (see evidence).'},
-    'C03': {'level': 'proof', 'technique': _T, 'note': _N + '; IBig seen through stub contracts',
-            'claim': 'Verus proofs that the six rounding modes decide NoOp/AddOne/SubOne exactly per their definition '
-                     'and that a single rounding of an exact value obeys the ulp/side/flag contract; the per-operation '
-                     'alignment code (add/div/sqrt) is undecided (f32 log2 estimates, see evidence).'},
-    'C04': {'level': 'proof', 'technique': _T, 'note': _N + '; UBig/IBig/Gcd seen through stub contracts',
-            'claim': 'Verus proofs over big-integer stubs that reduction and the arithmetic arms return the exact '
-                     'rational (cross-multiplied) and keep the canonical form (positive coprime denominator, 0/1).'},
-    'C05': {'level': 'other', 'technique': _T, 'note': _N,
-            'claim': 'Kani harnesses on the real representation code: every constructor keeps the normal form '
-                     '(bounded sizes), and ==/cmp/hash on normal forms follow the value (words <= 3, full 64-bit '
-                     'symbolic words). Bounded: not a proof for longer operands. Float/rational comparison shortcuts '
-                     'are undecided.',
-            'explanation': 'bounded model checking (CBMC via Kani) of the real comparison/representation code under '
-                           'function-level contracts; sizes bounded as stated per harness'},
+    'C01': {'level': 'proof', 'technique': _T, 'note': _N + '; Buffer/Repr/Memory seen through stub contracts by the '
+                                                           'dispatch units; Karatsuba/Toom-3/sqr bodies assumed exact',
+            'claim': 'Unbounded Verus proofs: every slice kernel of add.rs, the word/dword multiply kernels (math.rs, '
+                     'mul/mod.rs, mul/simple.rs), the whole Repr-level dispatch of + - * (add_ops.rs, mul_ops.rs incl. the '
+                     'four owned/borrowed forms and the IBig sign arms), pow (word/dword/large base, UBig/IBig::pow) and '
+                     'the must-panic contract of unsigned subtraction below zero compute exactly the mathematical '
+                     'result for all lengths and values. Karatsuba/Toom-3/squaring bodies are assumed exact products.'},
+    'C02': {'level': 'proof', 'technique': _T, 'note': _N + '; num_modular dividers assumed (dependency); add_signed_mul assumed',
+            'claim': 'Unbounded Verus proofs of a = q*b + r, r < b for the word/dword kernels, Knuth schoolbook division '
+                     '(div/simple.rs), divide-and-conquer division, the Repr-level dispatch incl. zero-divisor must-panic '
+                     'variants, every IBig sign convention (truncating and Euclidean forms) and ConstDivisor remainders/'
+                     'quotients (same result as plain division); a bounded Kani group cross-checks the schoolbook routine '
+                     'with the real reciprocal divider.'},
+    'C03': {'level': 'proof', 'technique': _T, 'note': _N + '; IBig/UBig and float Repr helpers seen through stub contracts; '
+                                                           'f32 log2 shortcuts are assumed guards (rule D10)',
+            'claim': 'Verus proofs that the six modes decide NoOp/AddOne/SubOne by their definition (round_low_part, '
+                     'round_ratio, round_fract), that repr_round is one correct rounding with a truthful flag, and that '
+                     'Context mul/sqr/cubic/add/sub/div/inv/sqrt return the mode-correct rounding of the exact result '
+                     '(add: at a proved unit; the <= 1 ulp-at-precision-p bound of add is undecided).'},
+    'C04': {'level': 'proof', 'technique': _T, 'note': _N + '; UBig/IBig/Gcd seen through stub contracts (value-exact ops, gcd by divisibility)',
+            'claim': 'Verus proofs that reduce/reduce2/from_parts, + - * / % (nearest-quotient remainder) and the Euclidean '
+                     'forms, mixed integer operands, inv, sqr/cubic/pow and the constructors of RBig/Relaxed return the '
+                     'exact rational (cross-multiplied) and that RBig results are canonical (den >= 1, coprime, 0/1).'},
+    'C05': {'level': 'proof', 'technique': _T, 'note': _N,
+            'claim': 'Verus proofs that rational ==/cmp (also non-reduced Relaxed) and float cmp/== (any precision, '
+                     'infinities) are the order of the exact values; bounded Kani harnesses that every Repr constructor '
+                     'keeps the normal form and that integer ==/cmp/hash on normal forms follow the value (<= 3 words).'},
     'C06': {'level': 'proof', 'technique': _T, 'note': _N,
-            'claim': 'Complete Kani proofs over the whole input domain that f32/f64 encode/decode are exact or '
-                     'correctly rounded (RNE) with a truthful flag, of the sign-magnitude conversions for every '
-                     'primitive width and of the double-word to_f32/to_f64 paths; multi-word and float/rational '
-                     'conversions are bounded or undecided (see evidence).'},
-    'C07': {'level': 'proof', 'technique': _T, 'note': _N,
-            'claim': 'Complete Kani proofs of digit decoding for all bytes x radices; bounded harnesses for the byte '
-                     'and chunk codecs; radix conversion algorithms and Formatter layout are undecided.'},
+            'claim': 'Complete Kani proofs (whole input domain) of f32/f64 encode/decode (RNE, truthful flag), the sign-'
+                     'magnitude conversions and double-word to_f32/to_f64; unbounded Verus proofs that multi-word integer, '
+                     'rational and base-2 float to_f32/to_f64 are correctly rounded with a truthful flag, TryFrom<f32/f64> is '
+                     'exact, TryFrom<RBig> for floats never panics and is exact when Ok, with_precision/to_int round once.'},
+    'C07': {'level': 'proof', 'technique': _T, 'note': _N + '; Formatter layout and non-power-of-two parsers undecided',
+            'claim': 'Complete Kani proofs of digit decoding and radix tables; Verus proofs that non-power-of-two printing '
+                     'of numbers up to the medium size emits exactly the positional digits and that width() matches; '
+                     'bounded Kani harnesses for byte/chunk codecs (<= 3 words), power-of-two parser and printer.'},
     'C08': {'level': 'proof', 'technique': _T, 'note': _N,
-            'claim': 'Only the clauses "conversion from f32/f64 is exact" (on top of the decode proof) and '
-                     '"with_precision is one correct rounding" are decided; parser/printer/base change are undecided.'},
+            'claim': 'Decided clauses only: conversion from f32/f64 to Repr<2>/FBig is exact (Verus over the Kani-proved '
+                     'decode) and with_precision is one correct rounding with a truthful flag. Parser, printer and base '
+                     'conversion are undecided (str/Formatter, ln/exp at working precision).'},
     'C09': {'level': 'proof', 'technique': _T, 'note': _N,
-            'claim': 'Unbounded Verus proofs of the shift kernels and trailing-bit scans against the arithmetic '
-                     'meaning (multiplication / floor division by 2^n, least set/clear bit); complete Kani proofs of '
-                     'the scalar bit helpers; two\'s-complement sign cases bounded (see evidence).'},
+            'claim': 'Unbounded Verus proofs: shift kernels and Repr-level << >> (multiplication / floor division by 2^n), '
+                     'bitwise kernels digit-wise, set/clear bit, clear_high_bits, split_bits, trailing-bit scans, and the '
+                     'IBig two\'s-complement sign arms of & | ^ ! >> against the infinite-sign digit semantics; complete and '
+                     'bounded Kani harnesses for scalar helpers, bit tests and next_power_of_two.'},
     'C10': {'level': 'proof', 'technique': _T, 'note': _N + '; IBig/UBig seen through stub contracts',
-            'claim': 'Verus proofs that the rounding primitives follow the definition of each of the six modes and '
-                     'that RBig trunc/floor/ceil/round/fract return the defined neighbour with trunc+fract = x.'},
-    'C12': {'level': 'proof', 'technique': _T, 'note': _N,
-            'claim': 'Complete Kani proofs for u8/u16 gcd/gcd_ext/sqrt/cbrt and the no_std log2 estimator over their '
-                     'whole domain; big-integer roots/gcd/log are bounded or undecided (Lehmer, f32-steered loops).'},
-    'C13': {'level': 'proof', 'technique': _T, 'note': _N,
-            'claim': 'Unbounded Verus proofs, on top of the C01 kernel contracts, that multi-word residue + and - '
-                     'return the residue of the integer result and stay in [0, m) for every modulus length; '
-                     'multiplication/pow/inv are bounded or undecided (see evidence).'},
-    'C14': {'level': 'other', 'technique': _T, 'note': _N,
-            'claim': 'Kani harness: integer vs f32 NumOrd equals the exact comparison for all f32 bit patterns and '
-                     'inline integers (bounded). Float/rational cross-type comparison filters are undecided.',
-            'explanation': 'bounded model checking of the real NumOrd impls against an exact integer oracle'},
-    'C15': {'level': 'other', 'technique': _T, 'note': _N,
-            'claim': 'Relational Kani harnesses on the macro-expanded operator impls: every call form returns the same '
-                     'value for operands up to 3 words (bounded); clone/clone_from equal and independent.',
-            'explanation': 'bounded model checking (CBMC via Kani) of relational call-form contracts on the real impls'},
+            'claim': 'Verus proofs that the rounding primitives follow the definition of each mode (uniqueness of the '
+                     'defined neighbour proved), that RBig/Relaxed trunc/floor/ceil/round/fract/split_at_point return the '
+                     'defined neighbour with trunc + fract = x, and that repr_round / with_precision / Repr::to_int round '
+                     'once with a truthful flag.'},
+    'C12': {'level': 'proof', 'technique': _T, 'note': _N + '; Lehmer gcd loops and root::sqrt_rem assumed (bounded Kani for sqrt_rem)',
+            'claim': 'Complete Kani proofs for u8/u16 gcd/gcd_ext/roots and the no_std log2 estimator; Verus proofs of the '
+                     'Bezout identity for gcd_ext with word/dword/large operands (bookkeeping around the assumed Lehmer '
+                     'core), sqrt_rem un-normalisation, log_dword (b^e <= x < b^(e+1) for any float estimate).'},
+    'C13': {'level': 'proof', 'technique': _T, 'note': _N + '; multiply/div_rem/gcd_ext_in_place assumed via contracts proved or assumed elsewhere',
+            'claim': 'Unbounded Verus proofs for multi-word rings: + - negate double multiply square are the residue of the '
+                     'integer result and stay in [0, m); inv returns Some(x) with a*x = 1 exactly for coprime a; '
+                     'conversions to/from residues; different rings must panic. pow is bounded (Kani, thorough tier).'},
+    'C14': {'level': 'proof', 'technique': _T, 'note': _N + '; f32 log2 filters assumed sound (axioms listed)',
+            'claim': 'Verus proofs that NumOrd between UBig and f32/f64, between rationals and floats (exact step) and '
+                     'NumHash of floats in any base agree with the exact values; bounded Kani spot checks of NumHash.'},
+    'C15': {'level': 'proof', 'technique': _T, 'note': _N,
+            'claim': 'Every owned/borrowed form of the integer + - * / % & | ^ >> dispatch, of the rational and float '
+                     'arithmetic arms is proved (Verus) against one and the same value-level postcondition, hence the forms '
+                     'agree; bounded Kani harnesses for clone/clone_from (equal and independent) and call-form agreement.'},
     'C16': {'level': 'proof', 'technique': _T, 'note': _N + '; Kani proofs do not establish termination',
-            'claim': 'Aggregates, over every function under Verus contract, the proved absence of panics (bounds, '
-                     'unwrap, overflow, debug assertions) under the stated precondition and termination (decreases); '
-                     'plus must-panic contracts for guarded preconditions. Whole-API exploration is not attempted.'},
-    'C17': {'level': 'other', 'technique': _T, 'note': _N + '; leak freedom unchecked',
+            'claim': 'Aggregates every Verus unit: each proved function is panic-free under its contract (bounds, unwrap, '
+                     'overflow, debug and run-time assertions) and terminates (decreases); must-panic contracts for '
+                     'unsigned subtraction below zero, zero divisors, different rings, infinite float operands, sqrt of '
+                     'negatives / unlimited precision. Whole-API exploration is not attempted.'},
+    'C17': {'level': 'other', 'technique': _T, 'note': _N,
             'claim': 'Kani on the real unsafe storage code, inductively: from an arbitrary well-formed state of bounded '
-                     'size every Buffer/Repr operation is memory-safe and re-establishes the representation '
-                     'invariant. Bounded sizes: not a proof.',
-            'explanation': 'bounded model checking (CBMC pointer/bounds/double-free checks) of one-operation '
-                           'inductive steps over arbitrary well-formed states of bounded size'},
+                     'size every Buffer/Repr operation is memory-safe (CBMC pointer/bounds/double-free/leak checks) and '
+                     're-establishes the representation invariant. Bounded sizes: not a proof.',
+            'explanation': 'bounded model checking of one-operation inductive steps over arbitrary well-formed states of '
+                           'bounded size (capacities/lengths <= 6-8 words), real unsafe code, CBMC memory checks'},
     'C18': {'level': 'proof', 'technique': _T, 'note': _N + '; UBig/IBig seen through stub contracts',
-            'claim': 'is_simpler_than is proved to be the documented lexicographic order; optimality of simplest_in '
-                     'and the Farey-neighbour functions is undecided (needs Stern-Brocot theory).'},
+            'claim': 'Unbounded Verus proofs: is_simpler_than is the documented order; farey_neighbors/next_up/next_down/'
+                     'nearest return the adjacent Farey elements (optimality included); simplest_in returns the simplest '
+                     'fraction strictly inside (membership and optimality); error_bounds of the six modes describe exactly '
+                     'the reals that round to f. simplest_from_f32/f64/float themselves are not under contract.'},
     'C19': {'level': 'proof', 'technique': _T, 'note': _N,
-            'claim': 'The kernel units are re-verified with Word = u32 against the same value-level contracts '
-                     '(thorough tier), debug assertions of functions under contract are proved (D3), and the no_std '
-                     'log2 estimator is proved in a --no-default-features build. Serialization is undecided.'},
+            'claim': 'Every word-size dependent Verus unit is re-verified with Word = u32 against the same value-level '
+                     'contracts (quick: kernel units; thorough: all), debug assertions of functions under contract are '
+                     'proved (D3), and the no_std log2 estimator is proved in a --no-default-features build. '
+                     'Serialization is undecided.'},
 }
 
 # C16 (panic freedom + termination) and C19 (word size) aggregate over every Verus unit registered for any property:
